@@ -120,11 +120,14 @@ def occurrence (node : XNode) (ancestors : List XNode) : Occ :=
 
 def asciiLower (s : String) : String := String.ofList (s.toList.map toLowerA)
 
+/-- the characters after the last `sep` (all of them when there is none): `split(sep).last()` -/
+def lastSegment (sep : Char) (cs : List Char) : List Char :=
+  cs.foldl (fun acc c => if c == sep then [] else acc ++ [c]) []
+
 /-- `take_three_chars_max` + `to_lowercase` of `make_abbreviated_namespace` -/
 def abbreviationBase (ns : String) : String :=
-  let lastSeg := (ns.splitOn "/").getLast?.getD ns
-  let lastDash := (lastSeg.splitOn "-").getLast?.getD lastSeg
-  let three := (lastDash.toList.filter (fun c => isLowerA c || isUpperA c || isDigitA c)).take 3
+  let lastDash := lastSegment '-' (lastSegment '/' ns.toList)
+  let three := (lastDash.filter (fun c => isLowerA c || isUpperA c || isDigitA c)).take 3
   let abbr : List Char :=
     match three with
     | [] => "ns".toList
